@@ -27,13 +27,26 @@ def run_h(ck, hb, args, timeout=300, tsan_halt=False):
 
 
 def tsan_reports(se):
-    """distinct ThreadSanitizer data-race reports, keyed by the top occa frames"""
+    """distinct ThreadSanitizer reports, keyed by report kind and the occa functions on top of the two stacks"""
     out = []
     for blk in se.split("WARNING: ThreadSanitizer:")[1:]:
-        kind = blk.strip().splitlines()[0][:60]
-        frames = re.findall(r"#\d+ ([\w:~<>]+(?:\([^)]*\))?) [^\n]*?(/src/[\w/.]+:\d+)", blk)
-        top = [f for f in frames if "occa" in f[0] or "/src/" in f[1]][:2]
-        out.append((kind, tuple(x[1] for x in top), blk[:1500]))
+        kind = blk.strip().splitlines()[0].split("(pid")[0].strip()[:60]
+        if kind.startswith("thread leak"):
+            continue
+        fns = []
+        # only the two racing accesses (not the allocation / thread-creation stacks)
+        for stack in re.split(r"\n\s*\n", blk):
+            if not re.search(r"(?:[Rr]ead|[Ww]rite|[Aa]tomic \w+) of size", stack.strip().splitlines()[0] if stack.strip() else ""):
+                if not (stack is blk.split("\n\n")[0]):
+                    continue
+            for m in re.finditer(r"#\d+ (\S[^\n]*?) (/\S+:\d+)", stack):
+                fn, where = m.group(1), m.group(2)
+                if "occa::" in fn and "/harness/" not in where:
+                    f = re.sub(r"\(.*", "", fn)
+                    if f not in fns:
+                        fns.append(f)
+                    break
+        out.append((kind, tuple(fns[:2]), blk[:1500]))
     return out
 
 
@@ -91,7 +104,7 @@ def main(argv):
         ck.cov["distinct_nontrivial"] += nt + 2
         ck.cov["counters"]["tsan_distinct_reports"] = len(seen_races)
         for (kind, where), (text, blk) in sorted(seen_races.items()):
-            ck.oracle_violation("ThreadSanitizer: %s at %s" % (kind, " <- ".join(where) or "?"), text + "\n" + blk, name="tsan")
+            ck.oracle_violation("ThreadSanitizer: %s in %s" % (kind, " / ".join(where) or "?"), text + "\n" + blk, name="tsan")
     if not model_says_safe:
         # the model refutes the property for the lock scopes found in the source; make sure that
         # is reported even if no run exhibited it (it is a listed known finding on the unchanged tree)
